@@ -288,8 +288,11 @@ def _real_test(
     # Fit using the real part
     variables: NDArray[float64] = pinv(A_re).dot(X_exp.real / abs_X_exp)
     if add_capacitance:
-        # Nullifies the capacitance without dividing by 0
-        variables[-2] = 1e-18
+        # Nullifies the capacitance without dividing by 0. The variable is
+        # the capacitance itself when operating on admittance data, so it can
+        # be set to zero exactly (a small absolute value would not be
+        # negligible for all magnitudes of admittance).
+        variables[-2] = 0.0 if admittance else 1e-18
 
     # Fit using the imaginary part to fix the series/parallel
     # inductance (and capacitance)
